@@ -46,6 +46,11 @@ def extentOf (ls : List Path) (c : Contours) : Rat :=
   | some (mn, mx) => let e := max (mx.x - mn.x) (mx.y - mn.y); if e = 0 then 1 else e
   | none => 1
 
+/-- the extent that the tolerances are relative to: the polygon and the member lines whose box meets the polygon's
+(a member far away from a small polygon yields nothing and must not widen the tolerance for the other members) -/
+def extentRel (ls : List Path) (c : Contours) : Rat :=
+  extentOf (ls.filter fun l => !trivialCase [l] c) c
+
 def judgeClip (L : Lines) (A : Operand) (rhs : Tok) : String :=
   let s := L.paths
   let c := toContours A
@@ -93,21 +98,21 @@ def judgeClip (L : Lines) (A : Operand) (rhs : Tok) : String :=
             -- length clause: total length against the oracle's inside intervals
             let lw := (want.map pathLen).foldl (· + ·) 0
             let lg := (got.map pathLen).foldl (· + ·) 0
-            if fabs (lw - lg) > 1e-9 * (lw + ratToFloat (extentOf s c)) then
-              s!"SPEC {cls} length-clause total-length/extent want={lw / ratToFloat (extentOf s c)} got={lg / ratToFloat (extentOf s c)} pieces want={want.length} got={got.length}"
+            if fabs (lw - lg) > 1e-9 * (lw + ratToFloat (extentRel s c)) then
+              s!"SPEC {cls} length-clause total-length/extent want={lw / ratToFloat (extentRel s c)} got={lg / ratToFloat (extentRel s c)} pieces want={want.length} got={got.length}"
             else
               -- not only the vertices: the midpoint of every returned segment lies inside or on P (exact)
               match (got.flatMap pairs).find? (fun e => !insideClosedC c (pointAt e.1 e.2 (1/2))) with
               | some e => s!"SPEC {cls} returned-segment-leaves-the-polygon midpoint-of ({ratToFloat e.1.x},{ratToFloat e.1.y})-({ratToFloat e.2.x},{ratToFloat e.2.y}) is outside P"
               | none =>
                 -- the same chains, member by member, as the model predicts?  (implies the same segments)
-                match matchChains (extentOf s c) want got with
+                match matchChains (extentRel s c) want got with
                 | none => s!"OK {cls}"
                 | some whyChains =>
                   -- exactly the inside parts: the returned segments are the oracle's segments (undirected
                   -- multiset); how pieces are linked is not part of the property, so a mere difference
                   -- in the chains is a DIFF (implementation ≠ model), not a SPEC
-                  match matchChains (extentOf s c) ((want.flatMap pairs).map fun e => [e.1, e.2]) ((got.flatMap pairs).map fun e => [e.1, e.2]) with
+                  match matchChains (extentRel s c) ((want.flatMap pairs).map fun e => [e.1, e.2]) ((got.flatMap pairs).map fun e => [e.1, e.2]) with
                   | some why => s!"SPEC {cls} segments: {why}"
                   | none => s!"DIFF {cls} model-differs: {whyChains}"
     | _ => s!"DIFF {cls} result-is-not-a-MultiLineString"
